@@ -561,8 +561,11 @@ def check(prop, tier, seed, replay=None):
         fl = run.get("min_cases", {}).get(tier, 1)
         if per_bin_cases.get(run["bin"], 0) < fl:
             floor_fail.append("%s ran %d cases, floor %d" % (run["bin"], per_bin_cases.get(run["bin"], 0), fl))
-    for need in cfg.get("require_obs", {}).get(tier, cfg.get("require_obs", {}).get("all", [])) if isinstance(cfg.get("require_obs"), dict) else []:
-        if not any(fnmatch.fnmatchcase(o, need) for o in obs):
+    ro = cfg.get("require_obs", [])
+    if isinstance(ro, dict):
+        ro = ro.get(tier, ro.get("all", []))
+    for need in ro:
+        if not any(fnmatch.fnmatchcase(o.split(":", 1)[1], need) for o in obs):
             floor_fail.append("expected behaviour class never observed: %s" % need)
 
     unlisted, listed = [], []
